@@ -22,11 +22,11 @@ RULE = (
     "re-send, replace).  Invariants after every step: (I1) str(m) of every message object ever merged "
     "equals its value before its first merge, and so does what its accessors expose (story / stories / "
     "item(s) / source / target IDs and the content of carried stories and items); (I2) str(A) == str(A'); (I3) str(B) == str(B') and the "
-    "re-used object raises exactly when the fresh copy does; (I4) no Element object belongs to two of {A, A', B, B', the six most recent message objects} (shared mutable content, even where no message can yet make it visible); (I5, collections) MosReader objects handed to a second MosCollection give the same result as freshly built readers.  Non-trivial = a step whose message "
+    "re-used object raises exactly when the fresh copy does; (I4) no Element object belongs to two of {A, A', B, B', the six most recent message objects} (shared mutable content, even where no message can yet make it visible), nor does a non-empty attribute dictionary; (I6) a message object edited through its public .xml and merged again contributes its current content, like a fresh parse of its str(); (I5, collections) MosReader objects handed to a second MosCollection give the same result as freshly built readers.  Non-trivial = a step whose message "
     "edits a story that an earlier message object carried, or a re-use step of a payload-carrying "
     "object; distinct = distinct (state text, message text) digests.")
 ASSUMPTIONS = []
-MANDATORY = ['readers-in-two-collections', 'same-object-merged-twice', 'edit-inside-carried-story', 'reuse-of-payload-object', 'reuse-after-edit',
+MANDATORY = ['message-edited-then-merged', 'readers-in-two-collections', 'same-object-merged-twice', 'edit-inside-carried-story', 'reuse-of-payload-object', 'reuse-after-edit',
              'carried-by:StoryAppend', 'carried-by:StoryInsert', 'carried-by:StoryReplace',
              'carried-by:EAStoryInsert', 'carried-by:EAStoryReplace', 'carried-by:StorySend']
 
@@ -77,6 +77,14 @@ class World:
         owner = {}
         for name, tree in trees:
             for e in tree.iter():
+                if len(e.attrib):
+                    # the attribute dictionary is mutable content too (a shallow copy shares it)
+                    o2 = owner.setdefault(('attrib', id(e.attrib)), name)
+                    if o2 != name:
+                        self.fails.append(Failure(PROP, 'C13|attribute-dict-shared',
+                                                  f'after {what}: the attribute dictionary of a <{e.tag}> element is one '
+                                                  f'object in both {o2} and {name}: .set() on one changes the other'))
+                        break
                 other = owner.setdefault(id(e), name)
                 if other != name:
                     kind_ = (other if 'object' in other else name).replace(' object', '')
@@ -140,6 +148,28 @@ class World:
         self.check(f'second merge of the same {kind}')
         return {'kind': kind}
 
+    def edit(self, n):
+        """Edit the most recent message object through its public .xml (a slug / paragraph / ID-less text
+        inside the message element), then merge it again: what is merged must be the content the object
+        has NOW, exactly as a fresh parse of str(obj) would give."""
+        from checks.c20 import msg_view
+        obj, _s0, _text, kind = self.objs[-1]
+        body = obj.base_tag if getattr(obj, 'base_tag', None) is not None else obj.xml
+        cands = [e for e in body.iter() if e.tag in ('storySlug', 'itemSlug', 'p', 'roSlug', 'objID') and len(e) == 0]
+        if not cands:
+            return None
+        cands[n % len(cands)].text = f'edited {n}'
+        text = str(obj)
+        self.objs[-1] = (obj, text, text, kind)
+        self.views[-1] = msg_view(obj)
+        e1 = _merge(self.a, obj)
+        e2 = _merge(self.a_ref, MosFile.from_string(text))
+        if e1 != e2:
+            self.fails.append(Failure(PROP, f'C13|{kind}|edited-object-vs-fresh-exception-differs',
+                                      f'{kind} edited and merged again: live object raised {e1}, fresh copy of its text raised {e2}'))
+        self.check(f'merge of an edited {kind}')
+        return {'kind': kind}
+
     def advance(self):
         obj, s0, text, kind = self.objs[self.j]
         self.j += 1
@@ -168,6 +198,9 @@ def rejudge(case):
             elif op[0] == 'again':
                 if w.objs:
                     w.again()
+            elif op[0] == 'edit':
+                if w.objs and w.j < len(w.objs):
+                    w.edit(op[1])
             elif w.j < len(w.objs):
                 w.advance()
     seen, out = set(), []
@@ -242,6 +275,19 @@ def shard(args):
                 self.ops.append(['again'])
                 info = self.w.again()
             self._record(['same-object-merged-twice', info['kind']], True, h64(str(self.w.a), 'again', len(self.ops)))
+
+        # (only objects that B has not yet received: B' is fed the text recorded at send time)
+        @precondition(lambda self: self.w is not None and len(self.w.objs) > 0 and self.w.j < len(self.w.objs))
+        @rule(n=st.integers(0, 9))
+        def edit(self, n):
+            with warnings.catch_warnings():
+                warnings.simplefilter('ignore')
+                self.ops.append(['edit', n])
+                info = self.w.edit(n)
+            if info is None:
+                self.ops.pop()
+                return
+            self._record(['message-edited-then-merged', info['kind']], True, h64(str(self.w.a), 'edit', len(self.ops)))
 
         @precondition(lambda self: self.w is not None and self.w.j < len(self.w.objs))
         @rule()
